@@ -503,7 +503,7 @@ Var& Var::operator[](const String& k)
 	else if (_type == OBJ)
 		return (*_o)[k];
 	else if (_type == ARRAY)
-		return (*_a)[k];
+		return (*this)[(int)k]; // like the int index: grows the array instead of indexing beyond it
 	asl_error("Var[String] on non object");
 	return *this;
 }
